@@ -1,4 +1,279 @@
-import AdfModel.Api
+/-
+  C07 — Directory-cache coherence: the record codec and its bounds.
+  Model: AdfModel/Cache.lean — `getCacheEntry` (adfGetCacheEntry on the 488-byte record area), `putCacheEntry`
+  (adfPutCacheEntry), `cacheEntryLen`, `skipRecords`.
+  Theorems: whatever bytes a cache block holds, a successfully parsed record lies entirely inside the 488-byte
+  record area, its name is 1..30 and its comment 0..79 bytes long, and parsing always advances (so a block holds
+  at most 18 records and the record loops end); and the parser reads back exactly what the writer stored.
+  NOT proved (MANIFEST): coherence (cached listing = hash listing) as an invariant of histories; decided on
+  explored histories by the independent decoder and the listing comparison.
+-/
+import AdfProofs.CacheLemmas
 namespace Adf.C07
-theorem C07_placeholder : True := trivial
+open Adf
+
+/-- what a successful parse tells us: all five guards passed, and the record / next offset are these -/
+theorem getCacheEntry_some (ra : Bytes) (ptr : Nat) (e : CacheEntry) (p : Nat)
+    (h : getCacheEntry ra ptr = some (e, p)) :
+    let nLen := (ra.getD (ptr + 23) 0).toNat
+    let cLen := (ra.getD (ptr + 24 + nLen) 0).toNat
+    ptr ≤ 462 ∧ 1 ≤ nLen ∧ nLen ≤ 30 ∧ ptr + 24 + nLen < 488 ∧ cLen ≤ 79 ∧ ptr + 24 + nLen + 1 + cLen ≤ 488 ∧
+    e.nLen = nLen ∧ e.cLen = cLen ∧ e.name = slice ra (ptr + 24) nLen ∧ e.comm = slice ra (ptr + 24 + nLen + 1) cLen ∧
+    p = (if (ptr + 24 + nLen + 1 + cLen) % 2 ≠ 0 then ptr + 24 + nLen + 1 + cLen + 1 else ptr + 24 + nLen + 1 + cLen) := by
+  unfold getCacheEntry REC_AREA at h
+  simp only at h ⊢
+  by_cases c1 : ptr > 488 - 26
+  · rw [if_pos c1] at h; cases h
+  · rw [if_neg c1] at h
+    by_cases c2 : (ra.getD (ptr + 23) 0).toNat < 1 ∨ (ra.getD (ptr + 23) 0).toNat > 30
+    · rw [if_pos c2] at h; cases h
+    · rw [if_neg c2] at h
+      by_cases c3 : ptr + 24 + (ra.getD (ptr + 23) 0).toNat ≥ 488
+      · rw [if_pos c3] at h; cases h
+      · rw [if_neg c3] at h
+        by_cases c4 : (ra.getD (ptr + 24 + (ra.getD (ptr + 23) 0).toNat) 0).toNat > 79
+        · rw [if_pos c4] at h; cases h
+        · rw [if_neg c4] at h
+          by_cases c5 : ptr + 24 + (ra.getD (ptr + 23) 0).toNat + 1 + (ra.getD (ptr + 24 + (ra.getD (ptr + 23) 0).toNat) 0).toNat > 488
+          · rw [if_pos c5] at h; cases h
+          · rw [if_neg c5] at h
+            simp only [Option.some.injEq, Prod.mk.injEq] at h
+            obtain ⟨he, hp⟩ := h
+            subst he
+            refine ⟨by omega, by omega, by omega, by omega, by omega, by omega, rfl, rfl, rfl, rfl, hp.symm⟩
+
+/-- bounds: for EVERY byte string, a parsed record is inside the 488-byte record area and has legal lengths -/
+theorem C07_record_in_bounds (ra : Bytes) (ptr : Nat) (e : CacheEntry) (p : Nat)
+    (h : getCacheEntry ra ptr = some (e, p)) :
+    1 ≤ e.nLen ∧ e.nLen ≤ 30 ∧ e.cLen ≤ 79 ∧ ptr + 24 + e.nLen + 1 + e.cLen ≤ REC_AREA ∧
+    e.name.length ≤ e.nLen ∧ e.comm.length ≤ e.cLen ∧ p ≤ REC_AREA + 1 := by
+  obtain ⟨h1, h2, h3, h4, h5, h6, hn, hc, hname, hcomm, hp⟩ := getCacheEntry_some ra ptr e p h
+  rw [hn, hc, hname, hcomm]
+  unfold REC_AREA
+  refine ⟨h2, h3, h5, h6, ?_, ?_, ?_⟩
+  · simp [slice, List.length_take]; exact Nat.min_le_left _ _
+  · simp [slice, List.length_take]; exact Nat.min_le_left _ _
+  · rw [hp]; split <;> omega
+
+/-- progress: a successful parse advances by at least 26 bytes, so at most 18 records can be parsed from a block,
+    whatever `recordsNb` claims -/
+theorem C07_parse_advances (ra : Bytes) (ptr : Nat) (e : CacheEntry) (p : Nat)
+    (h : getCacheEntry ra ptr = some (e, p)) : ptr + 26 ≤ p ∧ ptr ≤ 462 := by
+  obtain ⟨h1, h2, h3, h4, h5, h6, hn, hc, hname, hcomm, hp⟩ := getCacheEntry_some ra ptr e p h
+  refine ⟨?_, h1⟩
+  rw [hp]; split <;> omega
+
+theorem C07_at_most_18_records (ra : Bytes) (n : Nat) (hn : 19 ≤ n) : skipRecords ra n 0 = none := by
+  -- k records from `off` need off + 26*(k-1) ≤ 462
+  have key : ∀ (k off : Nat), 462 < off + 26 * (k - 1) → 1 ≤ k → skipRecords ra k off = none := by
+    intro k
+    induction k with
+    | zero => intro off _ h; omega
+    | succ k ih =>
+      intro off hgt _
+      rw [skipRecords]
+      cases hg : getCacheEntry ra off with
+      | none => rfl
+      | some r =>
+        obtain ⟨e, p⟩ := r
+        have := C07_parse_advances ra off e p hg
+        simp only
+        by_cases hk : k = 0
+        · subst hk; simp at hgt; omega
+        · exact ih p (by simp at hgt ⊢; omega) (by omega)
+  exact key n 0 (by omega) (by omega)
+
+/-- the writer's record length is what the parser will step over (even, 26 … 134) -/
+theorem C07_len_even (e : CacheEntry) : cacheEntryLen e % 2 = 0 ∧ 25 + e.nLen + e.cLen ≤ cacheEntryLen e ∧
+    cacheEntryLen e ≤ 26 + e.nLen + e.cLen := by
+  unfold cacheEntryLen
+  simp only
+  split <;> omega
+
+/-- the record as the writer lays it out behind bytes 0..15 -/
+def tailBytes (e : CacheEntry) : Bytes :=
+  be16 e.days ++ be16 e.mins ++ be16 e.ticks ++ [UInt8.ofNat e.type, UInt8.ofNat e.nLen] ++ e.name.take e.nLen ++
+    [UInt8.ofNat e.cLen] ++ e.comm.take e.cLen
+
+structure RecOK (e : CacheEntry) : Prop where
+  n1 : 1 ≤ e.nLen
+  n30 : e.nLen ≤ 30
+  c79 : e.cLen ≤ 79
+  nameLen : e.name.length = e.nLen
+  commLen : e.comm.length = e.cLen
+  hdr : e.header < 4294967296
+  size : e.size < 4294967296
+  prot : e.protect < 4294967296
+  days : e.days < 65536
+  mins : e.mins < 65536
+  ticks : e.ticks < 65536
+  type : e.type < 256
+
+theorem tailBytes_length (e : CacheEntry) (h : RecOK e) : (tailBytes e).length = 9 + e.nLen + e.cLen := by
+  unfold tailBytes
+  simp [be16, List.length_take, h.nameLen, h.commLen]
+  omega
+
+/-- (round trip) the parser reads back exactly the record the writer stored, and steps over exactly its length -/
+theorem C07_roundtrip (ra : Bytes) (ptr : Nat) (e : CacheEntry) (hra : ra.length = 488) (h : RecOK e)
+    (hfit : ptr + cacheEntryLen e ≤ 488) (hpe : ptr % 2 = 0) :
+    getCacheEntry (putCacheEntry ra ptr e) ptr = some (e, ptr + cacheEntryLen e) := by
+  have hlen := C07_len_even e
+  have hY := tailBytes_length e h
+  -- the three writes
+  let X : Bytes := be32 e.header ++ be32 e.size ++ be32 e.protect
+  have hX : X.length = 12 := by simp [X, be32]
+  let r1 := putAt ra ptr X
+  have hr1 : r1.length = 488 := by rw [putAt_length _ _ _ (by omega)]; exact hra
+  let r2 := putAt r1 (ptr + 16) (tailBytes e)
+  have hr2 : r2.length = 488 := by rw [putAt_length _ _ _ (by omega)]; exact hr1
+  -- reads inside the two written regions, on r2
+  have inX : ∀ k, k < 12 → r2.getD (ptr + k) 0 = X.getD k 0 := by
+    intro k hk
+    show (putAt r1 (ptr + 16) (tailBytes e)).getD (ptr + k) 0 = _
+    rw [getD_putAt_out _ _ _ _ _ (by omega) (Or.inl (by omega))]
+    show (putAt ra ptr X).getD (ptr + k) 0 = _
+    rw [getD_putAt_in _ _ _ _ _ (by omega) (by omega) (by omega), Nat.add_sub_cancel_left]
+  have inY : ∀ k, k < 9 + e.nLen + e.cLen → r2.getD (ptr + 16 + k) 0 = (tailBytes e).getD k 0 := by
+    intro k hk
+    show (putAt r1 (ptr + 16) (tailBytes e)).getD (ptr + 16 + k) 0 = _
+    rw [getD_putAt_in _ _ _ _ _ (by omega) (by omega) (by omega), Nat.add_sub_cancel_left]
+  have slY : ∀ k len, k + len ≤ 9 + e.nLen + e.cLen → slice r2 (ptr + 16 + k) len = ((tailBytes e).drop k).take len := by
+    intro k len hk
+    exact slice_putAt_in r1 (ptr + 16) (tailBytes e) k len (by omega) (by omega)
+  -- the optional pad byte lies behind everything the parser reads
+  have hput : putCacheEntry ra ptr e = if (25 + e.nLen + e.cLen) % 2 = 0 then r2 else putAt r2 (ptr + (25 + e.nLen + e.cLen)) [0] := rfl
+  -- transfer the facts to the final record area
+  have fin_get : ∀ i, i < ptr + 25 + e.nLen + e.cLen → (putCacheEntry ra ptr e).getD i 0 = r2.getD i 0 := by
+    intro i hi
+    rw [hput]
+    split
+    · rfl
+    · rename_i hodd
+      have hfit' : ptr + (25 + e.nLen + e.cLen) + 1 ≤ 488 := by
+        unfold cacheEntryLen at hfit; simp only at hfit; rw [if_neg hodd] at hfit; omega
+      exact getD_putAt_out _ _ _ _ _ (by simp; omega) (Or.inl (by omega))
+  have fin_slice : ∀ a len, a + len ≤ ptr + 25 + e.nLen + e.cLen → slice (putCacheEntry ra ptr e) a len = slice r2 a len := by
+    intro a len hal
+    rw [hput]
+    split
+    · rfl
+    · rename_i hodd
+      have hfit' : ptr + (25 + e.nLen + e.cLen) + 1 ≤ 488 := by
+        unfold cacheEntryLen at hfit; simp only at hfit; rw [if_neg hodd] at hfit; omega
+      exact slice_putAt_out _ _ _ _ _ (by simp; omega) (by omega)
+  -- individual fields
+  have g23 : (putCacheEntry ra ptr e).getD (ptr + 23) 0 = UInt8.ofNat e.nLen := by
+    rw [fin_get _ (by omega), show ptr + 23 = ptr + 16 + 7 by omega, inY 7 (by omega)]
+    simp [tailBytes, be16]
+  have g22 : (putCacheEntry ra ptr e).getD (ptr + 22) 0 = UInt8.ofNat e.type := by
+    rw [fin_get _ (by omega), show ptr + 22 = ptr + 16 + 6 by omega, inY 6 (by omega)]
+    simp [tailBytes, be16]
+  have hnl : (UInt8.ofNat e.nLen).toNat = e.nLen := by
+    simp [UInt8.toNat_ofNat']; have := h.n30; omega
+  have hcl : (UInt8.ofNat e.cLen).toNat = e.cLen := by
+    simp [UInt8.toNat_ofNat']; have := h.c79; omega
+  have htl : (UInt8.ofNat e.type).toNat = e.type := by
+    simp [UInt8.toNat_ofNat']; have := h.type; omega
+  -- the layout of the tail: 8 fixed bytes, the name, the comment length, the comment
+  have hnm : e.name.take e.nLen = e.name := List.take_of_length_le (by rw [h.nameLen]; exact Nat.le_refl _)
+  have hcm : e.comm.take e.cLen = e.comm := List.take_of_length_le (by rw [h.commLen]; exact Nat.le_refl _)
+  let P8 : Bytes := be16 e.days ++ be16 e.mins ++ be16 e.ticks ++ [UInt8.ofNat e.type, UInt8.ofNat e.nLen]
+  have hP8 : P8.length = 8 := by simp [P8, be16]
+  have htail : tailBytes e = P8 ++ (e.name ++ (UInt8.ofNat e.cLen :: e.comm)) := by
+    unfold tailBytes; rw [hnm, hcm]; simp [P8, List.append_assoc]
+  have htail2 : tailBytes e = (P8 ++ e.name) ++ (UInt8.ofNat e.cLen :: e.comm) := by
+    rw [htail]; simp [List.append_assoc]
+  have gcl : (putCacheEntry ra ptr e).getD (ptr + 24 + e.nLen) 0 = UInt8.ofNat e.cLen := by
+    rw [fin_get _ (by omega), show ptr + 24 + e.nLen = ptr + 16 + (8 + e.nLen) by omega, inY _ (by omega)]
+    rw [htail2, List.getD_eq_getElem?_getD, List.getElem?_append_right (by simp [hP8, h.nameLen])]
+    simp [hP8, h.nameLen]
+  have sname : slice (putCacheEntry ra ptr e) (ptr + 24) e.nLen = e.name := by
+    rw [fin_slice _ _ (by omega), show ptr + 24 = ptr + 16 + 8 by omega, slY 8 e.nLen (by omega)]
+    rw [htail, ← hP8, List.drop_left, ← h.nameLen, List.take_left]
+  have scomm : slice (putCacheEntry ra ptr e) (ptr + 24 + e.nLen + 1) e.cLen = e.comm := by
+    rw [fin_slice _ _ (by omega), show ptr + 24 + e.nLen + 1 = ptr + 16 + (9 + e.nLen) by omega, slY _ e.cLen (by omega)]
+    have : tailBytes e = ((P8 ++ e.name) ++ [UInt8.ofNat e.cLen]) ++ e.comm := by rw [htail]; simp [List.append_assoc]
+    rw [this]
+    have hl : ((P8 ++ e.name) ++ [UInt8.ofNat e.cLen]).length = 9 + e.nLen := by simp [hP8, h.nameLen]; omega
+    rw [← hl, List.drop_left, ← h.commLen, List.take_length]
+  have w32 : ∀ (k v : Nat), k + 4 ≤ 12 → v < 4294967296 → (∀ j, j < 4 → X.getD (k + j) 0 = (be32 v).getD j 0) →
+      getBE32 (putCacheEntry ra ptr e) (ptr + k) = v := by
+    intro k v hk hv hx
+    apply getBE32_of_getD _ _ _ hv
+    · rw [fin_get _ (by omega), inX k (by omega)]; exact hx 0 (by omega)
+    · rw [fin_get _ (by omega), show ptr + k + 1 = ptr + (k + 1) by omega, inX _ (by omega)]; exact hx 1 (by omega)
+    · rw [fin_get _ (by omega), show ptr + k + 2 = ptr + (k + 2) by omega, inX _ (by omega)]; exact hx 2 (by omega)
+    · rw [fin_get _ (by omega), show ptr + k + 3 = ptr + (k + 3) by omega, inX _ (by omega)]; exact hx 3 (by omega)
+  have ghdr : getBE32 (putCacheEntry ra ptr e) ptr = e.header := by
+    have := w32 0 e.header (by omega) h.hdr (by
+      intro j hj
+      have : j = 0 ∨ j = 1 ∨ j = 2 ∨ j = 3 := by omega
+      rcases this with rfl | rfl | rfl | rfl <;> simp [X, be32])
+    simpa using this
+  have gsize : getBE32 (putCacheEntry ra ptr e) (ptr + 4) = e.size :=
+    w32 4 e.size (by omega) h.size (by
+      intro j hj
+      have : j = 0 ∨ j = 1 ∨ j = 2 ∨ j = 3 := by omega
+      rcases this with rfl | rfl | rfl | rfl <;> simp [X, be32])
+  have gprot : getBE32 (putCacheEntry ra ptr e) (ptr + 8) = e.protect :=
+    w32 8 e.protect (by omega) h.prot (by
+      intro j hj
+      have : j = 0 ∨ j = 1 ∨ j = 2 ∨ j = 3 := by omega
+      rcases this with rfl | rfl | rfl | rfl <;> simp [X, be32])
+  have w16 : ∀ (k v : Nat), k + 2 ≤ 6 → v < 65536 → (∀ j, j < 2 → (tailBytes e).getD (k + j) 0 = (be16 v).getD j 0) →
+      getBE16 (putCacheEntry ra ptr e) (ptr + 16 + k) = v := by
+    intro k v hk hv hx
+    apply getBE16_of_getD _ _ _ hv
+    · rw [fin_get _ (by omega), inY k (by omega)]; exact hx 0 (by omega)
+    · rw [fin_get _ (by omega), show ptr + 16 + k + 1 = ptr + 16 + (k + 1) by omega, inY _ (by omega)]; exact hx 1 (by omega)
+  have gdays : getBE16 (putCacheEntry ra ptr e) (ptr + 16) = e.days := by
+    have := w16 0 e.days (by omega) h.days (by
+      intro j hj
+      have : j = 0 ∨ j = 1 := by omega
+      rcases this with rfl | rfl <;> simp [htail, P8, be16])
+    simpa using this
+  have gmins : getBE16 (putCacheEntry ra ptr e) (ptr + 18) = e.mins := by
+    have := w16 2 e.mins (by omega) h.mins (by
+      intro j hj
+      have : j = 0 ∨ j = 1 := by omega
+      rcases this with rfl | rfl <;> simp [htail, P8, be16])
+    simpa using this
+  have gticks : getBE16 (putCacheEntry ra ptr e) (ptr + 20) = e.ticks := by
+    have := w16 4 e.ticks (by omega) h.ticks (by
+      intro j hj
+      have : j = 0 ∨ j = 1 := by omega
+      rcases this with rfl | rfl <;> simp [htail, P8, be16])
+    simpa using this
+  -- now run the parser
+  have hcel : cacheEntryLen e = (if (ptr + 24 + e.nLen + 1 + e.cLen) % 2 ≠ 0 then 25 + e.nLen + e.cLen + 1 else 25 + e.nLen + e.cLen) ∨ True := Or.inr trivial
+  unfold getCacheEntry REC_AREA
+  simp only [g23, hnl, gcl, hcl, g22, htl, ghdr, gsize, gprot, gdays, gmins, gticks, sname, scomm]
+  have hn1 := h.n1; have hn30 := h.n30; have hc79 := h.c79
+  have c1 : ¬ ptr > 488 - 26 := by omega
+  have c2 : ¬ (e.nLen < 1 ∨ e.nLen > 30) := by omega
+  have c3 : ¬ ptr + 24 + e.nLen ≥ 488 := by omega
+  have c4 : ¬ e.cLen > 79 := by omega
+  have c5 : ¬ ptr + 24 + e.nLen + 1 + e.cLen > 488 := by omega
+  rw [if_neg c1, if_neg c2, if_neg c3, if_neg c4, if_neg c5]
+  have hnext : (if (ptr + 24 + e.nLen + 1 + e.cLen) % 2 ≠ 0 then ptr + 24 + e.nLen + 1 + e.cLen + 1
+      else ptr + 24 + e.nLen + 1 + e.cLen) = ptr + cacheEntryLen e := by
+    unfold cacheEntryLen
+    simp only
+    by_cases hp : (25 + e.nLen + e.cLen) % 2 = 0
+    · rw [if_pos hp, if_neg (by omega)]; omega
+    · rw [if_neg hp, if_pos (by omega)]; omega
+  rw [hnext]
+
+/-- records start at even offsets: offset 0, and every step is even — the hypothesis of the round trip is an
+    invariant of a block filled by the writer -/
+theorem C07_offsets_stay_even (ptr : Nat) (e : CacheEntry) (h : ptr % 2 = 0) : (ptr + cacheEntryLen e) % 2 = 0 := by
+  have := (C07_len_even e).1; omega
+
+/-- witness: a concrete record written at offset 0 of an empty record area and parsed back -/
+example : let e : CacheEntry := { header := 882, size := 5, protect := 0, days := 8000, mins := 61, ticks := 150,
+                                  type := 253, nLen := 3, name := [97, 98, 99], cLen := 2, comm := [120, 121] }
+          getCacheEntry (putCacheEntry (List.replicate 488 0) 0 e) 0 = some (e, 30) := by
+  decide
+
 end Adf.C07
